@@ -70,6 +70,36 @@ fn play(cfg: &WorldCfg, sets: &[[AssetInfo; 2]], want_desc: bool, key: u64) -> C
     if refused > 0 {
         classes.push("x:some-creations-refused");
     }
+    // Administration between creation and listing (derived from the registry, in every second case): the
+    // owner migrates every fourth registered pair to the current pair code and re-registers one denom with
+    // other decimals. Neither may add, drop, duplicate or reorder a registry entry.
+    if fw.model.pairs.len() % 2 == 1 {
+        let addrs: Vec<String> = fw.model.pairs.values().map(|m| m.addr.clone()).collect();
+        let code = fw.w.codes.pair;
+        for (i, a) in addrs.iter().enumerate() {
+            if i % 4 == 1 {
+                let rec = fw.w.exec(Step {
+                    sender: owner.clone(),
+                    call: Call::Factory { msg: haloswap::factory::ExecuteMsg::MigratePair { contract: a.clone(), code_id: if i % 8 == 1 { Some(code) } else { None } } },
+                    funds: vec![],
+                });
+                if rec.outcome.is_ok() {
+                    classes.push("adm:pair-migrated");
+                }
+            }
+        }
+        if let Some((d, dec)) = fw.model.denoms.iter().next().map(|(d, v)| (d.clone(), *v)) {
+            let rec = fw.w.exec(Step {
+                sender: owner.clone(),
+                call: Call::Factory { msg: haloswap::factory::ExecuteMsg::AddNativeTokenDecimals { denom: d.clone(), decimals: (dec + 1) % 19 } },
+                funds: vec![],
+            });
+            if rec.outcome.is_ok() {
+                fw.model.denoms.insert(d, (dec + 1) % 19);
+                classes.push("adm:denom-re-registered");
+            }
+        }
+    }
     let n = fw.model.pairs.len();
     classes.push(match n {
         0 => "size:0",
